@@ -209,7 +209,8 @@ Proof. intros [|a l] x H; [contradiction|reflexivity]. Qed.
 (* ---------- layer 1: the decoder on the encoder's codes ---------- *)
 Lemma lzi_main : forall early rest tab S k wc s, lzi_inv early tab S k wc s -> bytes_ok rest ->
   lzi_widths_ok early s (rev (ref_lzw_codes early rest (Some wc) tab (258 + k) k [])) /\
-  exists s', lzi_hrun early s (rev (ref_lzw_codes early rest (Some wc) tab (258 + k) k [])) = (s', lzi_str S wc ++ rest, false).
+  exists s', lzi_hrun early s (rev (ref_lzw_codes early rest (Some wc) tab (258 + k) k [])) = (s', lzi_str S wc ++ rest, false)
+             /\ lz_eod s' = true.
 Proof.
   induction rest as [|c t IH]; intros tab S k wc s Hinv Hok.
   - (* end of data: the pending code, then EOD *)
@@ -222,7 +223,7 @@ Proof.
       intros _. exact I.
     + cbn [lzi_hrun]. rewrite Hh. unfold lzw_handle at 1. rewrite He1.
       change (257 =? 256) with false. change (257 =? 257) with true. cbv iota.
-      eexists. rewrite !app_nil_r. reflexivity.
+      eexists. rewrite !app_nil_r. split; reflexivity.
   - apply bytes_ok_cons_inv in Hok. destruct Hok as [Hc Hok].
     cbn [ref_lzw_codes]. destruct (tab_find tab wc c) as [code|] eqn:Ef.
     + (* the match grows: nothing is emitted *)
@@ -235,8 +236,8 @@ Proof.
         - destruct Hdec as [Hd|(T & e & ES & Et & Hvl & Ee)]; [left; exact Hd|right].
           exists T, e. repeat split; try assumption.
           rewrite Hstr, lzi_hd_app by exact Hne. exact Ee. }
-      destruct (IH tab S k code s Hinv' Hok) as [Hw (s' & Hr)].
-      split; [exact Hw|]. exists s'. rewrite Hr, Hstr, <- app_assoc. reflexivity.
+      destruct (IH tab S k code s Hinv' Hok) as [Hw (s' & Hr & Hee)].
+      split; [exact Hw|]. exists s'. rewrite Hr, Hstr, <- app_assoc. split; [reflexivity|exact Hee].
     + (* no match: emit wc *)
       destruct (lzi_handle_step _ _ _ _ _ _ Hinv) as (s1 & Hh & Ht1 & Hl1 & He1 & Hc1).
       destruct Hinv as [Htab Hk Hkmax Hwc Heod Hcs Hdec].
@@ -255,7 +256,7 @@ Proof.
           - left. exact Hc.
           - destruct early; reflexivity.
           - left. repeat split. }
-        destruct (IH [] [] 0 c s2 Hinv2 Hok) as [Hw (s' & Hr)].
+        destruct (IH [] [] 0 c s2 Hinv2 Hok) as [Hw (s' & Hr & Hee)].
         change (258 + 0) with 258 in Hw, Hr. split.
         -- cbn [lzi_widths_ok]. rewrite Hh. cbn [fst snd].
            split; [symmetry; exact Hcs|]. split; [apply lzi_valid_fits; assumption|]. intros _.
@@ -264,7 +265,7 @@ Proof.
            intros _. exact Hw.
         -- cbn [lzi_hrun]. rewrite Hh, Hh2, Hr. exists s'.
            unfold lzi_str at 2. replace (c <? 256) with true by (symmetry; apply N.ltb_lt; exact Hc).
-           cbn [app]. reflexivity.
+           cbn [app]. split; [reflexivity|exact Hee].
       * (* add the entry (wc, c) *)
         rewrite lzi_codes_acc. rewrite rev_app_distr. cbn [rev app].
         assert (Hinv2 : lzi_inv early ((wc, c, 258 + k) :: tab) (S ++ [lzi_str S wc ++ [c]]) (k + 1) c s1).
@@ -277,13 +278,13 @@ Proof.
           - exact Hc1.
           - right. exists S, (lzi_str S wc ++ [c]). rewrite Ht1, Hl1, Hk. repeat split; try assumption.
             unfold lzi_str at 3. replace (c <? 256) with true by (symmetry; apply N.ltb_lt; exact Hc). reflexivity. }
-        destruct (IH _ _ _ _ _ Hinv2 Hok) as [Hw (s' & Hr)].
+        destruct (IH _ _ _ _ _ Hinv2 Hok) as [Hw (s' & Hr & Hee)].
         replace (258 + (k + 1)) with (258 + k + 1) in Hw, Hr by lia. split.
         -- cbn [lzi_widths_ok]. rewrite Hh. cbn [fst snd].
            split; [symmetry; exact Hcs|]. split; [apply lzi_valid_fits; assumption|]. intros _. exact Hw.
         -- cbn [lzi_hrun]. rewrite Hh, Hr. exists s'.
            unfold lzi_str at 2. replace (c <? 256) with true by (symmetry; apply N.ltb_lt; exact Hc).
-           cbn [app]. reflexivity.
+           cbn [app]. split; [reflexivity|exact Hee].
 Qed.
 
 (* Layer 1 (codes): handleCode run over the codes of the reference encoder returns the data, for every byte
@@ -292,7 +293,7 @@ Qed.
    before the decoder would throw "table full") and the KwKwK case. *)
 Lemma lzw_codes_decode_encode_lemma : forall early d, bytes_ok d ->
   lzi_widths_ok early lzw_init (lzi_ref_codes early d) /\
-  exists s', lzi_hrun early lzw_init (lzi_ref_codes early d) = (s', d, false).
+  exists s', lzi_hrun early lzw_init (lzi_ref_codes early d) = (s', d, false) /\ lz_eod s' = true.
 Proof.
   intros early d Hok. unfold lzi_ref_codes. rewrite rev'_rev.
   set (s0 := {| lz_buf := lz_buf lzw_init; lz_code_size := 9; lz_next_char := lz_next_char lzw_init;
@@ -304,7 +305,7 @@ Proof.
     + cbn [lzi_widths_ok]. rewrite Hh0. cbn [fst snd lz_code_size lzw_init].
       split; [reflexivity|]. split; [reflexivity|]. intros _.
       split; [destruct early; reflexivity|]. split; [destruct early; reflexivity|]. intros _. exact I.
-    + cbn [lzi_hrun]. rewrite Hh0. eexists. reflexivity.
+    + cbn [lzi_hrun]. rewrite Hh0. eexists. split; reflexivity.
   - apply bytes_ok_cons_inv in Hok. destruct Hok as [Hc Hok].
     cbn [ref_lzw_codes].
     assert (Hinv : lzi_inv early [] [] 0 c s0).
@@ -314,10 +315,10 @@ Proof.
       - left. exact Hc.
       - destruct early; reflexivity.
       - left. repeat split. }
-    destruct (lzi_main early t [] [] 0 c s0 Hinv Hok) as [Hw (s' & Hr)].
+    destruct (lzi_main early t [] [] 0 c s0 Hinv Hok) as [Hw (s' & Hr & Hee)].
     change (258 + 0) with 258 in Hw, Hr. split.
     + cbn [lzi_widths_ok]. rewrite Hh0. cbn [fst snd lz_code_size lzw_init].
       split; [reflexivity|]. split; [reflexivity|]. intros _. exact Hw.
     + cbn [lzi_hrun]. rewrite Hh0, Hr. exists s'.
-      unfold lzi_str. replace (c <? 256) with true by (symmetry; apply N.ltb_lt; exact Hc). reflexivity.
+      unfold lzi_str. replace (c <? 256) with true by (symmetry; apply N.ltb_lt; exact Hc). split; [reflexivity|exact Hee].
 Qed.
